@@ -35,7 +35,7 @@
    see docs/C03.md. *)
 From Coq Require Import List ZArith Bool Arith.
 From SC Require Import Base.Res Base.PyList Inst.Heap Inst.ClassTable Inst.Model Inst.TypeProofs Inst.TypeCopy
-  Inst.OwnProofs Inst.OwnProofs2 Inst.OwnProofs3 Inst.OwnColl Inst.OwnCopy Inst.OwnCow Inst.OwnInit Inst.OwnAll.
+  Inst.OwnProofs Inst.OwnProofs2 Inst.OwnProofs3 Inst.OwnColl Inst.OwnCopy Inst.OwnCow Inst.OwnInit Inst.OwnMore Inst.OwnAll.
 Import ListNotations.
 Open Scope nat_scope.
 
@@ -472,24 +472,75 @@ Theorem C03_reset_inplace_preserves_owned :
     Inv ct (heap (snd (step ct roots (OpHelper x (HReset a) hh) s))).
 Proof. exact step_reset_inplace. Qed.
 
-(* the combined statement, with the operations covered as a computable predicate (owned_opf_b,
-   coq/Inst/OwnAll.v).  Leaf attribute: annotation scalar or List/Set/Dict of scalars, no
-   preparer.  Covered: the constructor of a flat class (keyword values flat); obj.a = v and
-   with_<a>(v, _inplace=True) with a fresh argument; with_<a>(v) copy-on-write on flat
-   receivers; with_<item> / without_<item> in place and copy-on-write with any arguments;
-   del obj.a and reset_<a>(_inplace=True); copy.deepcopy of flat values; the caller building a
-   container of scalars.
-   PARTIAL: the full statement quantifies over every operation (update_/transform_ helpers,
-   reset / reset_<a> copy-on-write, keyword attributes, positional constructor argument) and
-   every flat table (preparers, invalidated_by, nested spec classes / Any as elements,
-   do_not_copy, inheritance, __post_init__). *)
+(* ---------------- 9. update_ / transform_ helpers (OwnMore.v) ----------------
+   qfn f: the callback reads nothing from the heap and allocates at most one container of
+   non-references (identity, x + n, constant, fresh list / dict of scalars, raise; FAppended,
+   which copies the elements of its argument, is excluded).  Preparers of leaf attributes
+   are such callbacks. *)
+Theorem C03_update_item_preserves_owned :
+  forall ct, flat_table ct -> no_inval_table ct -> no_reserved_names ct ->
+  (forall l a hh s, h_inplace hh = true -> h_kw hh = None ->
+     Inv ct (heap s) -> recv_leafc ct l a (heap s) -> dflt_missingc ct l a (heap s) ->
+     Inv ct (heap (snd (run_helper ct l (HUpdateItem a) hh s)))) /\
+  (forall l a hh s cl d k, h_inplace hh = false -> h_kw hh = None ->
+     Inv ct (heap s) -> flat_recv ct l (heap s) cl d k ->
+     (forall sp, lookup_attr k a = Some sp -> exists fam, leaf_coll sp fam) ->
+     (assoc a d = None -> class_default k a = VMissing) ->
+     Inv ct (heap (snd (run_helper ct l (HUpdateItem a) hh s)))).
+Proof. intros ct Hf Hn Hr. split; [apply update_item_inplace|apply update_item_cow]; auto. Qed.
+
+Theorem C03_transform_item_preserves_owned :
+  forall ct, flat_table ct -> no_inval_table ct -> no_reserved_names ct ->
+  (forall l a hh s, h_inplace hh = true -> h_kwfn hh = [] -> oqfn (h_fn hh) ->
+     Inv ct (heap s) -> recv_leafc ct l a (heap s) -> dflt_missingc ct l a (heap s) ->
+     Inv ct (heap (snd (run_helper ct l (HTransformItem a) hh s)))) /\
+  (forall l a hh s cl d k, h_inplace hh = false -> h_kwfn hh = [] -> oqfn (h_fn hh) ->
+     Inv ct (heap s) -> flat_recv ct l (heap s) cl d k ->
+     (forall sp, lookup_attr k a = Some sp -> exists fam, leaf_coll sp fam) ->
+     (assoc a d = None -> class_default k a = VMissing) ->
+     Inv ct (heap (snd (run_helper ct l (HTransformItem a) hh s)))).
+Proof. intros ct Hf Hn Hr. split; [apply transform_item_inplace|apply transform_item_cow]; auto. Qed.
+
+Theorem C03_update_preserves_owned :
+  forall ct, flat_table ct -> no_inval_table ct -> no_reserved_names ct ->
+  (forall l a hh s, h_inplace hh = true -> h_kw hh = None -> is_sentinel (pos0 hh) = false ->
+     Inv ct (heap s) -> loose (heap s) (pos0 hh) -> recv_leafa ct l a (heap s) ->
+     Inv ct (heap (snd (run_helper ct l (HUpdate a) hh s)))) /\
+  (forall l a hh s cl d k, h_inplace hh = false -> h_kw hh = None -> is_sentinel (pos0 hh) = false ->
+     Inv ct (heap s) -> loose (heap s) (pos0 hh) -> flat_recv ct l (heap s) cl d k ->
+     (forall sp, lookup_attr k a = Some sp -> leaf_attr sp) ->
+     Inv ct (heap (snd (run_helper ct l (HUpdate a) hh s)))).
+Proof. intros ct Hf Hn Hr. split; [apply update_inplace|apply update_cow]; auto. Qed.
+
+Theorem C03_transform_copy_on_write :
+  forall ct, flat_table ct -> no_inval_table ct -> no_reserved_names ct ->
+  forall l a hh s cl d k,
+    h_inplace hh = false -> h_kwfn hh = [] -> oqfn (h_fn hh) ->
+    Inv ct (heap s) -> flat_recv ct l (heap s) cl d k ->
+    (forall sp, lookup_attr k a = Some sp -> leaf_attr sp) ->
+    (assoc a d = None -> nonref (class_default k a)) ->
+    Inv ct (heap (snd (run_helper ct l (HTransform a) hh s))).
+Proof. exact transform_cow. Qed.
+
+(* the combined statement, with the operations covered as a computable predicate (owned_opg_b,
+   coq/Inst/OwnAll.v).  Leaf attribute: annotation scalar or List/Set/Dict of scalars, preparers
+   (if any) quiet callbacks.  Covered: the constructor of a flat class (keyword values flat);
+   obj.a = v, with_<a>(v), update_<a>(v) in place and copy-on-write (fresh argument);
+   transform_<a>(f) copy-on-write; with_<item>, update_<item>, transform_<item>, without_<item>
+   in place and copy-on-write (any arguments); del obj.a and reset_<a>(_inplace=True);
+   copy.deepcopy of flat values; the caller building a container of scalars.
+   PARTIAL: the full statement quantifies over every operation (reset / reset_<a>
+   copy-on-write, top-level update / transform, keyword attributes and attribute transforms,
+   positional constructor argument, transform_<a> in place) and every flat table
+   (invalidated_by, nested spec classes / Any as elements, do_not_copy, inheritance,
+   __post_init__ / __post_copy__, callbacks that copy their argument). *)
 Theorem C03_step_preserves_owned_partial :
   forall ct roots o s,
     flat_table ct -> no_inval_b ct = true -> no_reserved_b ct = true ->
-    owned_opf_b ct (heap s) roots o = true ->
+    owned_opg_b ct (heap s) roots o = true ->
     TypeInv ct s -> Owned ct (heap s) ->
     TypeInv ct (snd (step ct roots o s)) /\ Owned ct (heap (snd (step ct roots o s))).
-Proof. exact step_preserves_owned_final. Qed.
+Proof. exact step_preserves_owned_g. Qed.
 
 (* non-vacuity: a table with an int, a List[int], a List[str], a Set[int], a Dict[str,int]
    attribute and a List[int] attribute with default_factory; the guards hold; conforming and
@@ -508,7 +559,7 @@ Definition exH2 : list obj :=
    OList [VInt 5%Z]; OList [VStr 5%Z]; OSet [VInt 6%Z]; ODict [(VInt 1%Z, VInt 2%Z)]].
 Definition exRun2 (o : op) := step exCT2 [VRef 0] o (mkst exH2 0 None).
 Definition exGood (o : op) : bool :=
-  owned_opf_b exCT2 exH2 [VRef 0] o && owned_b exCT2 (heap (snd (exRun2 o))) && ti_b exCT2 (heap (snd (exRun2 o))).
+  owned_opg_b exCT2 exH2 [VRef 0] o && owned_b exCT2 (heap (snd (exRun2 o))) && ti_b exCT2 (heap (snd (exRun2 o))).
 
 Example C03_owned_guards_hold :
   no_inval_b exCT2 = true /\ no_reserved_b exCT2 = true /\ owned_b exCT2 exH2 = true /\ ti_b exCT2 exH2 = true /\
@@ -575,8 +626,25 @@ Example C03_owned_guards_hold :
   nth_error (heap (snd (exRun2 (OpHelper 0 (HWithItem 100) (exArgs [VInt 7%Z] true))))) 8 = Some (OList [VInt 8%Z]) /\
   exGood (OpHelper 0 (HWithItem 100) (exArgs [VStr 7%Z] false)) = true /\
   exGood (OpDeepCopy 0) = true /\
+  (* update_ / transform_ helpers *)
+  exGood (OpHelper 0 (HUpdateItem 50) (exArgs [VInt 1%Z; VInt 8%Z] true)) = true /\
+  nth_error (heap (snd (exRun2 (OpHelper 0 (HUpdateItem 50) (exArgs [VInt 1%Z; VInt 8%Z] true))))) 1
+    = Some (OList [VInt 8%Z]) /\
+  exGood (OpHelper 0 (HUpdateItem 50) (exArgs [VInt 1%Z; VStr 8%Z] false)) = true /\
+  exGood (OpHelper 0 (HUpdateItem 80) (exArgs [VStr 1%Z; VInt 8%Z] false)) = true /\
+  exGood (OpHelper 0 (HTransformItem 50) (mkh [VInt 1%Z] true true VMissing false None None [] (Some (FAddInt 4%Z)))) = true /\
+  nth_error (heap (snd (exRun2 (OpHelper 0 (HTransformItem 50)
+      (mkh [VInt 1%Z] true true VMissing false None None [] (Some (FAddInt 4%Z))))))) 1
+    = Some (OList [VInt 5%Z]) /\
+  exGood (OpHelper 0 (HTransformItem 50) (mkh [VInt 1%Z] false true VMissing false None None [] (Some (FConst (VStr 4%Z))))) = true /\
+  exGood (OpHelper 0 (HUpdate 50) (exArgs [VRef 4] true)) = true /\
+  exGood (OpHelper 0 (HUpdate 50) (exArgs [VRef 5] false)) = true /\
+  exGood (OpHelper 0 (HUpdate 1) (exArgs [VInt 4%Z] false)) = true /\
+  exGood (OpHelper 0 (HTransform 50) (mkh [] false true VMissing false None None [] (Some (FNewList [VInt 2%Z])))) = true /\
+  exGood (OpHelper 0 (HTransform 1) (mkh [] false true VMissing false None None [] (Some (FAddInt 2%Z)))) = true /\
+  exGood (OpHelper 0 (HTransform 1) (mkh [] false true VMissing false None None [] (Some (FConst (VStr 2%Z))))) = true /\
   (* the aliasing assignment of the counterexample is NOT covered: the argument is referenced *)
-  owned_opf_b exCT [OInst 1 [(1, VInt 3%Z); (50, VRef 1)]; OList []] [VRef 0] (OpSetAttr 0 60 (VRef 1)) = false.
+  owned_opg_b exCT [OInst 1 [(1, VInt 3%Z); (50, VRef 1)]; OList []] [VRef 0] (OpSetAttr 0 60 (VRef 1)) = false.
 Proof. vm_compute. repeat split. Qed.
 
 Print Assumptions C03_checked_before_stored.
@@ -625,5 +693,9 @@ Print Assumptions C03_without_item_copy_on_write.
 Print Assumptions C03_constructor_preserves_owned.
 Print Assumptions C03_del_preserves_owned.
 Print Assumptions C03_reset_inplace_preserves_owned.
+Print Assumptions C03_update_item_preserves_owned.
+Print Assumptions C03_transform_item_preserves_owned.
+Print Assumptions C03_update_preserves_owned.
+Print Assumptions C03_transform_copy_on_write.
 Print Assumptions C03_step_preserves_owned_partial.
 Print Assumptions C03_owned_guards_hold.
